@@ -470,7 +470,8 @@ class Exec:
         is_fill = bool(changed)
         for k, old in changed.items():
             v = out1.store.m[k]
-            if isinstance(k[0], str) and isinstance(v, tuple) and v[0] == "store" and v[1] == old and v[2] == iv and item == iv:
+            if isinstance(k[0], str) and isinstance(v, tuple) and v[0] == "store" and v[1] == old and v[2] == iv \
+                    and (item == iv or (isinstance(item, tuple) and item[0] == "ref" and item[1] == k and item[2] == iv)):
                 from terms import subterms
                 if any(x == iv or (x[0] == "pre" and any(x[1] == pstr(c) for c in changed)) for x in subterms(v[3])):
                     is_fill = False
@@ -1342,6 +1343,26 @@ class Exec:
             return ("conv", name, args[0])
         if re.search(r"default::Default", n) and not args:
             return ("default", name)
+        if re.search(r"<impl bool>::then(_some)?$", n) and len(args) == 2:
+            some = lambda v: ("adt", "std::option::Option", (1, "Some"), (("0", v),), True)
+            none = ("adt", "std::option::Option", (0, "None"), (), True)
+            c = dv[0]
+            if n.endswith("then_some"):
+                return mk_gamma(c, some(args[1]), none)
+            ev = eval_lit(c, st.facts) if isinstance(c, tuple) and c[0] != "gamma" else None
+            if ev is False:
+                return none
+            s2 = st if ev is True else st.fork()
+            if ev is not True:
+                self.add_fact(s2, c, True)
+            v = self.call_closure(s2, args[1], [])
+            if ev is not True:
+                for k_, v_ in s2.store.m.items():
+                    if isinstance(k_[0], str) and st.store.m.get(k_) != v_:
+                        old_ = self._try_read(st, k_)
+                        st.store.write(k_, mk_gamma(c, v_, old_ if old_ is not None else ("pre", pstr(k_))))
+                st.asserts = s2.asserts
+            return some(v) if ev is True else mk_gamma(c, some(v), none)
         m = re.search(r"mem::(replace|swap|take)$", n)
         if m and args and all(isinstance(a, tuple) and a[0] == "ref" for a in args[:2 if m.group(1) == "swap" else 1]):
             which = m.group(1)
@@ -1420,4 +1441,14 @@ def evaluate(F, fn, policy=None, arg_terms=None, self_root="self", canon=False):
         raise Unsupported("function never returns")
     ret = ex.read_path(out, (("L", fr.id, 0),)) if (("L", fr.id, 0),) in out.store.m or out.store.has_descendants((("L", fr.id, 0),)) else UNIT
     heap = {pstr(k): v for k, v in out.store.m.items() if isinstance(k[0], str)}
+    if canon and fn.self_struct is not None and not getattr(F, "_in_typestate", False):
+        import typestate
+        try:
+            F._in_typestate = True
+            known = fn.self_struct in typestate.all_structs(F)[0]
+        finally:
+            F._in_typestate = False
+        if known:
+            ret = typestate.canon_state(F, fn.self_struct, ret)
+            heap = {k: typestate.canon_state(F, fn.self_struct, v) for k, v in heap.items()}
     return {"ret": ret, "heap": heap, "steps": out.steps, "asserts": out.asserts, "reads": out.reads, "state": out, "exec": ex, "frame": fr}
